@@ -27,6 +27,20 @@ use crate::jsgen::{self, Facts};
 
 const DID: &str = "did:key:z6MknSLrJoTcukLrE435hVNQT4JUhbvWLX4kUzqkEStBU8Vi";
 
+const CORPUS: &[&str] = &[
+    r#"{"a":0,"a!":0}"#,
+    r#"{"a":0,"a b":0}"#,
+    r##"{"a\"":0,"a#":0}"##,
+    r#"{"a\\":0,"a]":0,"a[":0}"#,
+    r#"{"a\t":0,"aA":0}"#,
+    r#"{"a\u0000":0,"a0":0,"a":0}"#,
+    r##"{"":0," ":0,"!":0,"#":0}"##,
+    r#"{"b":0,"a":{"d":0,"c":0},"é":0,"e\u0301x":0,"z":[{"y":0,"x":0}]}"#,
+    r#"{"n":[-9223372036854775808,9223372036854775807,18446744073709551615,0]}"#,
+    r#"{"f":1.5}"#,
+    r#"[1e2]"#,
+];
+
 #[derive(Clone, Copy, PartialEq, Debug)]
 enum Channel {
     CobEncode,
@@ -253,12 +267,22 @@ pub fn run(args: &Args) {
         rep.finish();
         return;
     }
+    // A few minimal hand-written members of the dangerous key families first (shard 0 only), so
+    // that the first witness of a key-order problem is a small one.
+    if args.shard == 0 {
+        for text in CORPUS {
+            let v: Value = serde_json::from_str(text).expect("corpus");
+            judge(&mut rep, &v, Channel::CobEncode, 7);
+            judge(&mut rep, &v, Channel::DocEncode, 7);
+        }
+    }
     let n = args.budget(400_000, 12_000_000);
     for k in 0..n {
         let seed = args.case_seed(k);
         let mut rng = Rng::new(seed);
         let want_float = rng.chance(1, 8);
-        let v = jsgen::gen_value(&mut rng, want_float);
+        let allow_collide = rng.chance(1, 6);
+        let v = jsgen::gen_value(&mut rng, want_float, allow_collide);
         let ch = if rng.chance(1, 4) { Channel::DocEncode } else { Channel::CobEncode };
         judge(&mut rep, &v, ch, seed ^ 0x5eed);
     }
